@@ -7,6 +7,10 @@ import (
 	"crypto/sha512"
 	"errors"
 	"fmt"
+	beacon "github.com/oasisprotocol/oasis-core/go/beacon/api"
+	"github.com/oasisprotocol/oasis-core/go/common/entity"
+	"github.com/oasisprotocol/oasis-core/go/common/node"
+	registry "github.com/oasisprotocol/oasis-core/go/registry/api"
 	"testing"
 
 	"pgregory.net/rapid"
@@ -73,6 +77,11 @@ func TestC09Authenticity(t *testing.T) {
 				rec.Discard("invalid-genesis")
 				return
 			}
+			var ec chain.ErrEngineContract
+			if errors.As(err, &ec) {
+				rec.Discard("engine-contract-at-genesis:" + chain.Why(ec.Err)) // C10 / C14 report it
+				return
+			}
 			ev.Infra(t, "new sim: %v", err)
 		}
 		cur = sim
@@ -136,8 +145,34 @@ func TestC09Authenticity(t *testing.T) {
 				a := actors[rapid.IntRange(0, len(actors)-1).Draw(t, "signer")]
 				acct := chain.AccountIn(base, a.Addr)
 				to := actors[rapid.IntRange(0, len(actors)-1).Draw(t, "to")]
-				tx := transaction.NewTransaction(acct.General.Nonce, &transaction.Fee{Gas: 200000}, staking.MethodTransfer,
-					&staking.Transfer{To: to.Addr, Amount: quantityOf(uint64(rapid.IntRange(0, 50).Draw(t, "amount")))})
+				// the method varies: authentication must not depend on what the transaction asks for
+				var method transaction.MethodName = staking.MethodTransfer
+				var body any = &staking.Transfer{To: to.Addr, Amount: quantityOf(uint64(rapid.IntRange(0, 50).Draw(t, "amount")))}
+				switch fk := rapid.SampledFrom([]string{"transfer", "transfer", "escrow", "burn", "register-node", "register-node", "register-entity"}).Draw(t, "fkind"); {
+				case fk == "escrow":
+					method, body = staking.MethodAddEscrow, &staking.Escrow{Account: to.Addr, Amount: quantityOf(uint64(rapid.IntRange(0, 50).Draw(t, "amount2")))}
+				case fk == "burn":
+					method, body = staking.MethodBurn, &staking.Burn{Amount: quantityOf(uint64(rapid.IntRange(0, 5).Draw(t, "amount3")))}
+				case fk == "register-node" && a.Node != nil && a.Owner != nil:
+					nd := sim.W.NodeDescriptor(a.Owner, a.Node, view.Epoch+beacon.EpochTime(rapid.IntRange(1, int(sim.W.Spec.MaxNodeExp)).Draw(t, "fexp")), 0, false)
+					sn, err := node.MultiSignNode(a.Node.Signers(), registry.RegisterNodeSignatureContext, nd)
+					if err != nil {
+						ev.Infra(t, "sign node: %v", err)
+					}
+					method, body = registry.MethodRegisterNode, sn
+				case fk == "register-entity" && a.Entity != nil:
+					ent := &entity.Entity{Versioned: cbor.NewVersioned(entity.LatestDescriptorVersion), ID: a.Entity.Signer.Public()}
+					for _, nk := range a.Entity.Nodes {
+						ent.Nodes = append(ent.Nodes, nk.ID.Public())
+					}
+					se, err := entity.SignEntity(a.Entity.Signer, registry.RegisterEntitySignatureContext, ent)
+					if err != nil {
+						ev.Infra(t, "sign entity: %v", err)
+					}
+					method, body = registry.MethodRegisterEntity, se
+				}
+				rec.Label("f-method:" + string(method))
+				tx := transaction.NewTransaction(acct.General.Nonce, &transaction.Fee{Gas: 200000}, method, body)
 				blob := cbor.Marshal(tx)
 				goodSig := ed25519.Sign(rawKey(a.Signer), chain.TxDigest(chainCtx, blob))
 				f := envelope(blob, a.Signer.Public(), goodSig)
